@@ -179,7 +179,13 @@ class Model:
             elif k == "slot":
                 self.render_slot(n, env, owner, prov, out, ck)
             elif k == "provide":
-                kw = [(kk, self.ev(e, env)) for kk, e in n[2]]
+                kw = []
+                for kk, e in n[2]:
+                    v = self.ev(e, env)
+                    if kk == "...":
+                        kw.extend((a, b) for a, b in (v.items() if isinstance(v, dict) else []))
+                    else:
+                        kw.append((kk, v))
                 self.provider_seq += 1
                 p2 = dict(prov)
                 p2[n[1]] = (self.provider_seq, kw)
